@@ -112,6 +112,9 @@ func runBoth(ctx *vrun.Ctx, mining bool) error {
 	if ctx.Replay != "" {
 		return fmt.Errorf("--replay: re-run the tier with the seed recorded in the replay file (the file holds the universe and the abstract trace)")
 	}
+	if os.Getenv("VERIF_ONLY_RACE") != "" { // debugging aid
+		return RunRaceDetector(ctx)
+	}
 	us := universesFor(ctx, mining)
 	workers := ctx.Workers
 	if workers > 8 {
@@ -121,6 +124,7 @@ func runBoth(ctx *vrun.Ctx, mining bool) error {
 	tlcSem := make(chan struct{}, 3) // concurrent TLC processes (2 workers each)
 	var replayMu sync.Mutex          // one universe replays at a time, on all workers
 	var wg sync.WaitGroup
+	var raceErr error
 	for i, u := range us {
 		wg.Add(1)
 		go func(i int, u *Universe) {
@@ -159,6 +163,22 @@ func runBoth(ctx *vrun.Ctx, mining bool) error {
 				r.err = err
 				return
 			}
+			if !mining && len(u.Scripted) == 0 {
+				n := 40
+				if ctx.Thorough {
+					n = 400
+				}
+				replayMu.Lock()
+				t3 := time.Now()
+				err = w.RunConcurrentBatch(n, workers, "concurrent")
+				replayMu.Unlock()
+				if err != nil {
+					r.err = err
+					return
+				}
+				ctx.AddExtra("concurrent_histories", int64(n))
+				ctx.Logf("concurrent callers universe %s: %d histories checked for linearisability, %.1fs", m.U.Name, n, time.Since(t3).Seconds())
+			}
 			cov, edges := w.Coverage()
 			ctx.Logf("replay universe %s: %d paths, %d steps, %d/%d edges covered, drift %d, %.1fs", m.U.Name, w.Paths, w.Steps, cov, edges, w.Drift, r.replS)
 			if tc != nil {
@@ -175,7 +195,19 @@ func runBoth(ctx *vrun.Ctx, mining bool) error {
 			}
 		}(i, u)
 	}
+	if !mining && ctx.Thorough {
+		wg.Add(1)
+		go func() {
+			defer wg.Done()
+			if err := RunRaceDetector(ctx); err != nil {
+				raceErr = err
+			}
+		}()
+	}
 	wg.Wait()
+	if raceErr != nil {
+		return raceErr
+	}
 	totalCov, totalEdges := 0, 0
 	var drift int64
 	var drifts []string
